@@ -246,6 +246,7 @@ fn main() {
                 return;
             }
             opts.lookup_audit = opts.props.c03;
+            opts.clone_swap_at = arg(&args, "--clone-swap").and_then(|x| x.parse().ok());
             opts.record_sample = true;
             opts.stop_on_violation = false;
             track::set_heapy(flag(&args, "--heapy"));
